@@ -8,7 +8,7 @@ import sys
 
 from .common import seed_from_env
 from .nscheck import run_property
-from .nsruns import std_spec
+from .nsruns import std_spec, ins_spec
 
 PROP = "C09"
 
@@ -48,9 +48,24 @@ def corpus(tier, seed):
     return specs
 
 
+def ins_corpus(tier, seed):
+    s = seed * 1000 + 950
+    specs = [ins_spec("gauss2", s + 1, 100), ins_spec("rosen2", s + 2, 100, draw_constant=False),
+             ins_spec("gauss4", s + 3, 100, reparameterisation=None, strict_threshold=True),
+             ins_spec("angle2", s + 4, 100, clip=True)]
+    if tier == "thorough":
+        k = 5
+        for model in ("gauss2", "rosen2", "gauss4", "angle2"):
+            for rep in ("logit", None):
+                for dc in (True, False):
+                    specs.append(ins_spec(model, s + k, 100, reparameterisation=rep, draw_constant=dc))
+                    k += 1
+    return specs
+
+
 def main(tier: str) -> int:
     seed = seed_from_env()
-    return run_property(PROP, tier, corpus(tier, seed),
+    return run_property(PROP, tier, corpus(tier, seed), ins_specs=ins_corpus(tier, seed),
                         note="Every population of every run: in bounds, prior finite and equal to the model's, "
                              "likelihood equal to the model's, pool size, each pool index handed out once, rejected "
                              "draws really unacceptable, likelihood never called outside the support. The "
